@@ -764,7 +764,7 @@ pub fn gen_valid_doc(rng: &mut Rng, ty: u32) -> String {
 }
 
 const DE_INSERTS: &[&str] = &[
-    "<!--c-->", "<!---->", "<![CDATA[cd]]>", "<![CDATA[]]>", "<?pi x?>", "<!DOCTYPE d>", "<!DOCTYPE d [<!ENTITY e 'v'>]>",
+    "<!--c-->", "<!---->", "<![CDATA[cd]]>", "<![CDATA[]]>", "<![CDATA[x[0]y[1]>z]]>", "<![CDATA[a]b]>c]]>", "<!--a-b->c-->", "<?p a?b>c?>", "<?pi x?>", "<!DOCTYPE d>", "<!DOCTYPE d [<!ENTITY e 'v'>]>",
     "<x/>", "<x>", "</x>", "<x>t</x>", "t", " ", "\n  ", "&lt;", "&#x41;", "&unknown;", "&", "&e;", "<a>", "</a>",
     "<item k=\"1\">v</item>", "<name>n</name>", "<A>1</A>", "<b>bold</b>", "<br/>", "<skip><skip/></skip>", "<num>7</num>",
     "<inner/>", "<c>z</c>", "<u>x</u>  t", "<u><a/>x<b/></u>\n  t", "<u/> t ", "<u>x<!--c-->y</u>", "<?xml version=\"1.0\"?>", "]]>", "<root>", "</root>", "<$text>", "<a><b><c/></b></a>",
